@@ -329,7 +329,7 @@ func runHarness(cfg *Config, prog *ssa.Program, pkg *ssa.Package, name string, v
 	}
 	sh := &Shared{prog: prog, pool: pool, harness: name, tier: cfg.tier, seed: cfg.seed, trace: cfg.trace, vpModel: vpModel,
 		globals: map[*ssa.Global]Val{}, lazyMemo: map[string]StoreEntry{}, globalHeap: map[int]Val{}, strIntern: map[string]int{}, seen: map[string]bool{},
-		unwind: 24, sliceL: 2, maxSteps: 20000000, maxPaths: cfg.maxPaths, reachWanted: map[string]int{}, reachSat: map[string]bool{}, reachLater: map[string][]*State{}, divMemo: map[string][2]string{},
+		unwind: 24, sliceL: 2, maxSteps: 20000000, maxPaths: cfg.maxPaths, reachWanted: map[string]int{}, reachSat: map[string]bool{}, reachLater: map[string][]*State{}, divMemo: map[string][2]string{}, stubPanic: map[string]bool{},
 		boundsUsed: map[string]int{}, optionsUsed: map[string]bool{}, notes: map[string]bool{}, stubs: map[string]bool{}, stubMono: map[string][2]int{}}
 	sh.decls = append(sh.decls, prelude...)
 	sh.noRegion = os.Getenv("VP_NO_REGION") != ""
